@@ -1,37 +1,7 @@
 (* C18: KEEP_LAST keeps the newest samples and never rejects for depth; KEEP_ALL keeps
    everything until taken.  Also the exact case analysis of add_change shared with C19. *)
-From DustDDS Require Import Base.Machine Cache.ReaderModel Cache.ReaderFacts Cache.ReaderCorr.
+From DustDDS Require Import Base.Machine Cache.ReaderModel Cache.ReaderFacts Cache.ReaderCorr Cache.LimitsDefs.
 Open Scope Z_scope.
-
-(* ------------------------------------------------------------------------- *)
-(* the decision taken by add_reader_change, as functions of the state BEFORE  *)
-(* ------------------------------------------------------------------------- *)
-Definition replaces_b (r : reader) (h : Z) : bool :=
-  match q_depth (r_qos r) with
-  | Some d => d =? count (alive_of_inst h) (r_samples r)
-  | None => false
-  end.
-Definition ms_hit (r : reader) (h : Z) : bool :=
-  negb (replaces_b r h) && len_eq (q_ms (r_qos r)) (Z.of_nat (length (r_samples r))).
-Definition mi_hit (r : reader) (h : Z) : bool :=
-  if existsb (Z.eqb h) (distinct_insts (r_samples r) []) then false
-  else len_eq (q_mi (r_qos r)) (Z.of_nat (length (distinct_insts (r_samples r) []))).
-Definition mspi_hit (r : reader) (h : Z) : bool :=
-  negb (replaces_b r h) && len_eq (q_mspi (r_qos r)) (count (of_inst h) (r_samples r)).
-(* everything add_reader_change tests before it looks at history and limits:
-   instance-state update possible, exclusive-ownership gate, time-based filter *)
-Definition passes_gates (r : reader) (w : Z) (k : kind) (h : Z) (t : ts) (rts : Z) : bool :=
-  match touch_instance (r_insts r) h k with
-  | None => false
-  | Some insts1 =>
-      match ownership_gate (set_insts r insts1) w h rts with
-      | None => false
-      | Some _ => of_interest r h t
-      end
-  end.
-(* where the new sample goes *)
-Definition place (q : qos) (t : ts) (smp : sample) (base : list sample) : list sample :=
-  if q_bysrc q then insert_before (fun x => ts_ltb t (s_ts x)) smp base else base ++ [smp].
 
 Lemma find_upd_inst h f : forall l i, (forall x, i_handle (f x) = i_handle x) ->
   find_inst h l = Some i -> exists j, find_inst h (upd_inst h f l) = Some j.
@@ -264,9 +234,6 @@ Qed.
 (* ------------------------------------------------------------------------- *)
 (* (a) KEEP_LAST bound                                                         *)
 (* ------------------------------------------------------------------------- *)
-Definition kl_bound (d : Z) (r : reader) : Prop :=
-  forall h, count (alive_of_inst h) (r_samples r) <= d.
-
 Lemma alive_other h h0 x : h0 <> h -> alive_of_inst h x = true -> alive_of_inst h0 x = false.
 Proof.
   unfold alive_of_inst. intros Hne [H _]%andb_true_iff. apply Z.eqb_eq in H.
@@ -416,9 +383,6 @@ Qed.
 (* ------------------------------------------------------------------------- *)
 (* histories with their observations                                           *)
 (* ------------------------------------------------------------------------- *)
-(* the trace of a run: every operation paired with what it returned *)
-Definition run_trace (r : reader) (ops : list op) : list (op * obs) := zip ops (snd (run_obs r ops)).
-
 Lemma run_obs_cons r o ops :
   run_obs r (o :: ops) =
   (fst (run_obs (fst (step r o)) ops), snd (step r o) :: snd (run_obs (fst (step r o)) ops)).
@@ -441,22 +405,8 @@ Proof.
     unfold run_trace in IH. rewrite <- app_assoc in IH. exact IH.
 Qed.
 
-(* payloads of the samples of instance h that were accepted (result Added), in
-   acceptance order: the model-side twin of ReaderCorr.added_data_of *)
-Definition accepted_one (h : Z) (ox : op * obs) : list Z :=
-  match ox with
-  | (OpAdd _ h' _ _ d _, ObsAdd Added) => if h' =? h then [d] else []
-  | _ => []
-  end.
-Definition accepted (h : Z) (tr : list (op * obs)) : list Z := flat_map (accepted_one h) tr.
-
 Lemma accepted_snoc h tr ox : accepted h (tr ++ [ox]) = accepted h tr ++ accepted_one h ox.
 Proof. unfold accepted. rewrite flat_map_app. cbn [flat_map]. now rewrite app_nil_r. Qed.
-
-Definition alive_add (o : op) : bool :=
-  match o with OpAdd _ _ k _ _ _ => kind_eqb k KAlive | _ => true end.
-Definition not_take (o : op) : bool :=
-  match o with OpTake _ _ _ | OpTakeNext _ _ _ => false | _ => true end.
 
 (* read (take = false) keeps every sample, possibly marked READ *)
 Inductive marked : list sample -> list sample -> Prop :=
@@ -576,8 +526,6 @@ Proof. destruct l; reflexivity. Qed.
 (* ------------------------------------------------------------------------- *)
 (* (c) KEEP_LAST keeps the newest                                              *)
 (* ------------------------------------------------------------------------- *)
-Definition all_alive_kind (l : list sample) : Prop := forall s, In s l -> s_kind s = KAlive.
-
 Lemma marked_all_alive k l : marked k l -> all_alive_kind l -> all_alive_kind k.
 Proof.
   intros H. induction H; intros Ha s' Hin; [destruct Hin| |].
@@ -708,8 +656,7 @@ Proof.
   { intros Hs Ha. rewrite Hs.
     assert (Hnil : forall h0, accepted_one h0 (OpAdd w h k t data rts, ObsAdd a) = []).
     { intros h0. cbn [accepted_one]. destruct a; try reflexivity. now elim Ha. }
-    split; [intros h0 d0|intros Hby h0]; rewrite accepted_snoc, Hnil, app_nil_r; auto.
-    Show. }
+    split; [intros h0 d0|intros Hby h0]; rewrite accepted_snoc, Hnil, app_nil_r; [apply Hin|now apply Hn]. }
   inversion O as [? ? _ [?|?] Hs|? _ _ Hs|? _ _ _ Hs|? _ _ _ _ Hs|? _ _ _ _ _ _ Hs
                  |? smp _ _ _ _ Hk Hi Hda _ _ _ Hpos Hs]; subst;
     try (apply Same; [exact Hs|discriminate]).
@@ -735,4 +682,53 @@ Proof.
   destruct H as (_ & H1 & H2).
   - split; [reflexivity|]. split; [intros h d []|]. intros _ h. reflexivity.
   - split; [exact H1|exact H2].
+Qed.
+
+(* ------------------------------------------------------------------------- *)
+(* (d) over histories: only KAlive data arrives (reads and takes allowed)      *)
+(* ------------------------------------------------------------------------- *)
+Lemma thinned_all_alive k l : thinned k l -> all_alive_kind l -> all_alive_kind k.
+Proof.
+  intros H. induction H; intros Ha s' Hin.
+  - destruct Hin.
+  - destruct Hin as [<-|Hin]; [apply Ha; now left|apply IHthinned; [|exact Hin]]. intros z Hz; apply Ha; now right.
+  - destruct Hin as [<-|Hin]; [apply (Ha s); now left|apply IHthinned; [|exact Hin]]. intros z Hz; apply Ha; now right.
+  - apply IHthinned; [|exact Hin]. intros z Hz; apply Ha; now right.
+Qed.
+Lemma add_all_alive r w data h t rts :
+  all_alive_kind (r_samples r) -> all_alive_kind (r_samples (fst (add_change r w data KAlive h t rts))).
+Proof.
+  intros Hal. pose proof (add_change_outcome r w data KAlive h t rts) as O.
+  destruct (add_change r w data KAlive h t rts) as [r' a]. cbn [fst].
+  inversion O as [? ? _ _ Hs|? _ _ Hs|? _ _ _ Hs|? _ _ _ _ Hs|? _ _ _ _ _ _ Hs
+                 |? smp _ _ _ _ Hk _ _ _ _ _ _ Hs]; subst; rewrite Hs; try exact Hal.
+  intros s [->|Hin]%in_place; [exact Hk|]. apply Hal.
+  destruct (replaces_b r _); [eapply in_remove_first|]; exact Hin.
+Qed.
+
+Theorem never_rejected_for_depth_run q ops d :
+  q_depth q = Some d -> 0 <= d -> lim_ok (q_mspi q) d = true -> forallb alive_add ops = true ->
+  Forall no_rej3 (run_trace (init_reader q) ops).
+Proof.
+  intros Hd Hd0 Hl Hg.
+  pose proof (run_trace_inv alive_add
+     (fun r tr => r_qos r = q /\ all_alive_kind (r_samples r) /\ kl_bound d r /\ Forall no_rej3 tr)) as H.
+  specialize (H) with (ops := ops) (r := init_reader q) (tr := @nil (op * obs)).
+  apply H; [|exact Hg|].
+  - clear H Hg ops. intros r tr o Ho (Hq & Hal & Hb & Hf).
+    split; [now rewrite step_qos|].
+    split; [|split; [apply step_kl_bound; auto; now rewrite Hq|]].
+    + destruct o as [w h k t data rts| | | | | |].
+      1:{ cbn [alive_add] in Ho. destruct k; try discriminate. cbn [step].
+          pose proof (add_all_alive r w data h t rts Hal) as A.
+          destruct (add_change r w data KAlive h t rts). exact A. }
+      all: eapply thinned_all_alive; [|exact Hal]; apply step_samples_thinned; intros; discriminate.
+    + apply Forall_app. split; [exact Hf|]. constructor; [|constructor].
+      intros h0. cbn [snd]. destruct o as [w h k t data rts| | | | | |].
+      1:{ cbn [step].
+          pose proof (never_rejected_for_depth r w data k h t rts d) as N.
+          rewrite Hq in N. specialize (N Hd Hl Hb (fun s Hs _ => Hal s Hs) h0).
+          destruct (add_change r w data k h t rts) as [r' a]. cbn [snd] in *. congruence. }
+      all: cbn [step]; repeat break_match; cbn [snd]; discriminate.
+  - split; [reflexivity|]. split; [intros s []|]. split; [|constructor]. intros h. cbn. lia.
 Qed.
